@@ -144,7 +144,7 @@ func runC34(c *an.Ctx) {
 					return false
 				}
 				v := an.ResultValues(r)
-				return len(v) != 1 || !an.IsNilConst(v[0])
+				return len(v) != 1 || !an.IsNilConst(an.Bound(v[0]))
 			})
 			c.Add(bad == nil, "R3", "Shutdown:repeat-succeeds", sd, "a repeated Shutdown returns nil", "reachability from the already-shut-down edge")
 		}
@@ -207,7 +207,7 @@ func runC34(c *an.Ctx) {
 					return false
 				}
 				v := an.ResultValues(r)
-				return len(v) != 1 || !an.IsNilConst(v[0])
+				return len(v) != 1 || !an.IsNilConst(an.Bound(v[0]))
 			})
 			c.Add(bad == nil, "R3", "Leave:repeat-succeeds", lv, "Leave after a completed leave returns nil", "reachability from the already-left edge")
 		}
